@@ -25,6 +25,11 @@ def jobs(ctx, props):
                      'max_workers': 2, 'outcomes': ('success', 'failure'),
                      'revs': ('r1', 'r2'), 'life': True, 'poll': True,
                      'max_life': 3 if quick else 4}))
+    # the register frame of a waiting worker processed a second time, then the
+    # worker disconnects: nothing may be written to the lost connection
+    out.append(('single/re-register', E['single'], ['A', 'B'], props,
+                {'reqs': 1, 'mode': 'explicit', 'max_workers': 2, 'outcomes': ('success',),
+                 'revs': ('r1',), 'rereg': True}))
     # one event without run id whose job leaves the scheduler in several batches
     # (a dependant requested together with its ancestor, two targets finishing
     # at different times without new values): every batch draws its own run id
